@@ -56,6 +56,10 @@ def np_profile(case):
         return A, ValuationProfile.of(A)
     dt = {"int64": np.int64, "int32": np.int32, "float": float}[case.get("dtype", "int64")]
     A = np.array(case["P"], dtype=dt)
+    if "mults" in case:     # a large electorate given as distinct ballots with multiplicities
+        A = np.repeat(A, case["mults"], axis=0)
+        if case.get("shuffle_seed") is not None:
+            np.random.RandomState(case["shuffle_seed"]).shuffle(A)
     if case["rule"] == "STV":
         return A, CompleteProfile.of(A)
     return A, StrictCompleteProfile.of(A)
@@ -75,6 +79,12 @@ def run_vote(case, deadline=10.0, seed=None):
         np.random.seed(seed)
     def go():
         rule = make_rule(case)
+        for pre in case.get("prelude", []):      # the same rule object is used on other profiles first
+            try:
+                _, pp = np_profile(dict(case, **pre))
+                getattr(rule, case["method"])(pp)
+            except Exception:  # noqa
+                pass
         A, prof = np_profile(case)
         A0 = A.copy()
         out = getattr(rule, case["method"])(prof)
